@@ -343,7 +343,7 @@ func compileOnce(es []Entry, svc, dc, ovr string, wide *WideCtx, perm []int) run
 	select {
 	case r := <-ch:
 		return r
-	case <-time.After(5 * time.Second):
+	case <-time.After(20 * time.Second):
 		hung = true
 		return runResult{timeout: true}
 	}
@@ -683,7 +683,7 @@ func runCompileCase(c *Case, rng *rand.Rand, reps int) {
 		}
 		r := compileOnce(c.Entries, c.Svc, c.DC, c.Ovr, c.Wide, perm)
 		if r.timeout {
-			c.Oracle = "termination:compile-did-not-return-in-5s"
+			c.Oracle = "termination:compile-did-not-return-in-20s"
 			c.Sig = map[string]interface{}{"kind": "termination"}
 			return
 		}
@@ -1230,7 +1230,7 @@ func chainCompiles(s *state.Store, svc string) (ok bool, msg string, hungNow boo
 	select {
 	case r := <-ch:
 		return r.ok, r.msg, false
-	case <-time.After(5 * time.Second):
+	case <-time.After(20 * time.Second):
 		hung = true
 		return false, "timeout", true
 	}
@@ -1354,7 +1354,7 @@ func runStoreCase(c *Case, universe []string) {
 		for _, x := range universe {
 			ok, msg, h := chainCompiles(s, x)
 			if h {
-				c.Oracle = fmt.Sprintf("termination:chain-%s-did-not-compile-in-5s@%d", x, i)
+				c.Oracle = fmt.Sprintf("termination:chain-%s-did-not-compile-in-20s@%d", x, i)
 				c.Sig = map[string]interface{}{"kind": "termination"}
 				return
 			}
